@@ -32,6 +32,7 @@ def run(prog, tier):
         jump(prog, chk, names, U, S)
     dispatcher(prog, chk, names, U)
     fluor_line(prog, chk, names, U)
+    share_nonzero(prog, chk, U)
     return chk
 
 
@@ -280,6 +281,25 @@ def dispatcher(prog, chk, names, U):
 
 def noerr_key(key):
     return strip_err_text(key)
+
+
+def share_nonzero(prog, chk, U):
+    """A jump share that comes out as exactly 0 (a tabulated jump ratio of 1) must be reported as an error: the callers treat 0 as
+    "failed" and hand it on as their own 0, so without an error of its own the cross section would come back as 0 with an empty
+    error slot.  Decided on every value exit of the four share functions: the returned factor is established non-zero."""
+    n = 0
+    for fn in ('Jump_from_K', 'Jump_from_L1', 'Jump_from_L2', 'Jump_from_L3'):
+        f = prog.func(fn, unit=U, required=False)
+        if f is None:
+            continue
+        it, paths = run_function(prog, f)
+        for p in value_paths(it, paths):
+            n += 1
+            chk.decide(it.interval_of(p.ret, p).excludes_zero(), 'share-nonzero', U, fn, 'value exit@%d' % p.ret_node['ln'], '%s:%d' % (U, p.ret_node['ln']),
+                       'the share %s can be exactly 0 here (jump ratio 1.0 in the table, e.g. Li K, Mg L1/L2): it is returned without an error, and '
+                       'CS_FluorShell / CS_FluorLine then return 0 with an empty error slot' % strip_err_text(p.ret.canon())[:80],
+                       why='factor tested non-zero before it is returned')
+    chk.floor('value exits of the jump share functions', n, 4)
 
 
 def fluor_line(prog, chk, names, U):
